@@ -6,6 +6,7 @@
    (continued in Proofs/CompilePermProofs.v: file permutations) *)
 From Coq Require Import Permutation Lia.
 From Soy Require Import Model.Bytes Model.Num Model.Values Model.Outcome Model.Ast Model.MsgId Model.Compile
+  Model.JsGen
   Generated.Tables Spec.Determinism Proofs.ValueProofs Proofs.MsgIdProofs.
 Open Scope N_scope.
 
@@ -145,41 +146,17 @@ Proof.
   unfold add_globals_map at 2 4. rewrite H. apply IH.
 Qed.
 
-(* ---- the JavaScript walk ---- *)
-Section JsExt.
-  Variables ko ko' : korder.
-  Hypothesis Hko : kext ko ko'.
-  Lemma js_seq_ext w w' l : (forall st n, w st n = w' st n) -> forall st, js_seq w st l = js_seq w' st l.
-  Proof.
-    intros Hw. induction l as [|n r IH]; intros st; cbn [js_seq]; [reflexivity|].
-    rewrite Hw. destruct (w' st n); [reflexivity | apply IH].
-  Qed.
-  Lemma js_body_ext w w' st n : (forall st n, w st n = w' st n) -> js_body ko w st n = js_body ko' w' st n.
-  Proof.
-    intros Hw. unfold js_body.
-    destruct n;
-      repeat first [ reflexivity
-                   | apply Hw
-                   | apply js_seq_ext, Hw
-                   | rewrite (map_values_ext ko ko' _ Hko)
-                   | rewrite (js_seq_ext w w' _ Hw)
-                   | match goal with |- match ?x with _ => _ end = match ?x with _ => _ end => destruct x end ].
-  Qed.
-  Lemma js_node_ext fuel : forall st n, js_node ko fuel st n = js_node ko' fuel st n.
-  Proof. induction fuel as [|f IH]; intros st n; cbn [js_node]; [reflexivity|]. apply js_body_ext, IH. Qed.
-End JsExt.
-
 (* ================================================================== *)
 (* B. oracle independence                                             *)
 (* ================================================================== *)
 
 Definition orders_ext (o o' : orders) : Prop :=
   kext (o_globals o) (o_globals o') /\ kext (o_children o) (o_children o') /\ phext (o_ph o) (o_ph o') /\
-  kext (o_imports o) (o_imports o') /\ kext (o_jsmap o) (o_jsmap o').
+  kext (o_imports o) (o_imports o').
 
 Lemma compile_gen_ext ns o o' calls srcs : orders_ext o o' -> compile_gen ns o calls srcs = compile_gen ns o' calls srcs.
 Proof.
-  intros (Hg & Hc & Hp & _ & _). unfold compile_gen.
+  intros (Hg & Hc & Hp & _). unfold compile_gen.
   rewrite (bundle_of_globals_ext _ _ calls Hg).
   destruct (bg_err (bundle_of_globals (o_globals o') calls)) as [[name existing]|]; [reflexivity|].
   destruct (add_all_files empty_creg srcs) as [r|e]; [|reflexivity].
@@ -192,16 +169,12 @@ Proof.
   f_equal. f_equal. apply map_ext. intros t. f_equal. apply template_msgs_ext; assumption.
 Qed.
 
-Lemma es6_import_block_ext o o' f : orders_ext o o' -> es6_import_block o f = es6_import_block o' f.
-Proof.
-  intros (_ & _ & _ & Hi & Hj). unfold es6_import_block.
-  rewrite (js_seq_ext _ _ (sfile_body f) (js_node_ext (o_jsmap o) (o_jsmap o') Hj (file_fuel f))).
-  destruct (js_seq _ _ _) as [e|st]; [reflexivity|]. destruct (j_called st); [reflexivity|]. rewrite Hi. reflexivity.
-Qed.
+Lemma import_block_ext ko ko' called infile : kext ko ko' -> import_block ko called infile = import_block ko' called infile.
+Proof. intros H. unfold import_block. destruct called; [reflexivity|]. rewrite H. reflexivity. Qed.
 
 Lemma repaired_orders_ext o o' : perm_orders o -> perm_orders o' -> orders_ext (repaired_orders o) (repaired_orders o').
 Proof.
-  intros (Hg & Hc & Hp & Hi & Hj) (Hg' & Hc' & Hp' & Hi' & Hj'). unfold orders_ext, repaired_orders; cbn.
+  intros (Hg & Hc & Hp & Hi) (Hg' & Hc' & Hp' & Hi'). unfold orders_ext, repaired_orders; cbn.
   repeat split; try (apply sorted_after_kext; assumption). apply perm_order_phext; assumption.
 Qed.
 
@@ -212,17 +185,27 @@ Theorem compile_oracle_independent ns o o' calls srcs :
   perm_orders o -> perm_orders o' -> compile ns o calls srcs = compile ns o' calls srcs.
 Proof. intros H H'. apply compile_gen_ext, repaired_orders_ext; assumption. Qed.
 
-Theorem es6_imports_oracle_independent o o' f :
-  perm_orders o -> perm_orders o' -> es6_imports o f = es6_imports o' f.
-Proof. intros H H'. apply es6_import_block_ext, repaired_orders_ext; assumption. Qed.
+(* the import block of the repaired tree: sorted after the range *)
+Theorem import_block_oracle_independent o o' called infile :
+  perm_order o -> perm_order o' -> import_block (sorted_after o) called infile = import_block (sorted_after o') called infile.
+Proof. intros H H'. apply import_block_ext, sorted_after_kext; assumption. Qed.
 
-(* the map literal emission of soyjs sorts already in the pinned tree: the walk
-   that generates the code does not depend on the order of that range *)
-Theorem js_walk_order_independent o o' fuel st n :
-  perm_order o -> perm_order o' -> js_node (sorted_after o) fuel st n = js_node (sorted_after o') fuel st n.
-Proof. intros H H'. apply js_node_ext, sorted_after_kext; assumption. Qed.
-
-(* ---- tie of the hand-modelled argument table to the source: the functions it
-   lists are exactly soyjs.funcs as regenerated from soyjs/funcs.go ---- *)
-Lemma js_func_args_names : sort_strings (map fst js_func_args) = c13_js_funcs.
-Proof. vm_compute. reflexivity. Qed.
+(* The whole generated file (Model/JsGen.v, byte-exact model of soyjs.Write for
+   both formatters, with or without a message bundle): the one Go map that is
+   ranged over while generating is funcsCalled, its keys are sorted before the
+   import lines are written, and nothing else of the generator looks at the
+   order (the walk is literally the same term for both orders: by conversion). *)
+Theorem gen_file_order_independent fmt msgs ord ord' fuel name body :
+  perm_order ord -> perm_order ord' ->
+  gen_file {| o_fmt := fmt; o_msgs := msgs; o_order := ord |} fuel name body =
+  gen_file {| o_fmt := fmt; o_msgs := msgs; o_order := ord' |} fuel name body.
+Proof.
+  intros H H'. unfold gen_file.
+  change (visit_file {| o_fmt := fmt; o_msgs := msgs; o_order := ord' |} fuel name body)
+    with (visit_file {| o_fmt := fmt; o_msgs := msgs; o_order := ord |} fuel name body).
+  destruct (visit_file _ fuel name body jinit_state) as [[u st]| | | | |]; try reflexivity.
+  destruct (j_called st) as [|c r]; [reflexivity|]. cbn [o_order].
+  match goal with |- context [sort_strings (ord ?l)] =>
+    rewrite (sort_strings_perm (ord l) (ord' l)); [reflexivity|] end.
+  eapply Permutation_trans; [apply H | apply Permutation_sym, H'].
+Qed.
